@@ -189,29 +189,43 @@ def check(run, prog, tier):
            do.file, fnode.get("l"), "destruct_object", what="destruct_object leaves the connection of a destructed interactive object open")
 
     # ---- C08-d
-    links = [(b, i, n) for b, i, n in mo.nodes() if n.get("k") == "Asg" and n.get("op") == "=" and show(strip(n["L"])) in ("dest->contains", "item->super")]
+    # move_object(item, dest): parameters by position; the cycle walk uses some local that starts at dest and follows ->super
+    P_ITEM = mo.params[0].get("n") if len(mo.params or []) > 0 else "item"
+    P_DEST = mo.params[1].get("n") if len(mo.params or []) > 1 else "dest"
+    links = [(b, i, n) for b, i, n in mo.nodes() if n.get("k") == "Asg" and n.get("op") == "=" and show(strip(n["L"])) in (P_DEST + "->contains", P_ITEM + "->super")]
     run.need(len(links) >= 2, "relink stores in move_object")
     # cycle test: a branch `ob == item` whose true edge raises, inside a loop over ob = ob->super that dominates the links
-    cyc = [bid for bid in mo.reachable() if mo.branch_cond(bid) is not None and show(strip(mo.branch_cond(bid))) == "ob == item"
-           and mo.blocks[bid].succ[0] is not None and mo.blocks[mo.blocks[bid].succ[0]].nr]
+    walkers = {strip(n["L"]).get("n") for b, i, n in mo.nodes() if n.get("k") == "Asg" and n.get("op") == "=" and strip(n["L"]).get("k") == "Ref" and strip(n["L"]).get("d") == "local"
+               and strip(n["R"]).get("k") == "Mem" and strip(n["R"]).get("f") == "super" and strip(strip(n["R"])["b"]).get("n") == strip(n["L"]).get("n")}
+    cyc = []
+    for bid in mo.reachable():
+        c = mo.branch_cond(bid)
+        if c is None:
+            continue
+        for idx, truth in ((0, True), (1, False)):
+            op, l, r = atom_of(c, truth)
+            if op == "==" and r is not None and {strip(l).get("n"), strip(r).get("n")} & walkers and P_ITEM in (strip(l).get("n"), strip(r).get("n")):
+                tgt = mo.blocks[bid].succ[idx]
+                if tgt is not None and mo.blocks[tgt].nr:
+                    cyc.append(bid)
     okc = False
     if cyc:
         heads = [h for h in mo.reachable() if any(p in mo.reachable() and mo.dominates(h, p) for p in mo.blocks[h].preds) and mo.dominates(h, cyc[0])]
-        walks_super = any(n.get("k") == "Asg" and strip(n["L"]).get("n") == "ob" and show(strip(n["R"])) == "ob->super" for b, i, n in mo.nodes())
-        starts_dest = any(n.get("k") == "Asg" and strip(n["L"]).get("n") == "ob" and show(strip(n["R"])) == "dest" for b, i, n in mo.nodes())
+        walks_super = bool(walkers)
+        starts_dest = any(n.get("k") == "Asg" and strip(n["L"]).get("n") in walkers and strip(n["R"]).get("k") == "Ref" and strip(n["R"]).get("n") == P_DEST for b, i, n in mo.nodes())
         okc = bool(heads) and all(mo.dominates(heads[0], b.id) for b, i, n in links) and walks_super and starts_dest
-    run.ob("C08-d", "cycle-test", okc, "loop `for (ob = dest; ob; ob = ob->super) if (ob == item) error` dominates the relink: %s" % okc, mo.file, mo.line, "move_object",
+    run.ob("C08-d", "cycle-test", okc, "loop `for (x = dest; x; x = x->super) if (x == item) error` dominates the relink: %s" % okc, mo.file, mo.line, "move_object",
            what="move_object can create a containment cycle")
     edges = set()
     for bid in mo.reachable():
         c = mo.branch_cond(bid)
-        if c is not None and mentions(c, "O_DESTRUCTED") and "dest->flags" in show(c):
+        if c is not None and mentions(c, "O_DESTRUCTED") and (P_DEST + "->flags") in show(c):
             e, t = normalize_cond(c, True)
             s = mo.blocks[bid].succ[1] if t else mo.blocks[bid].succ[0]
             if s is not None:
                 edges.add((bid, s))
-    dl = [x for x in links if show(strip(x[2]["L"])) == "dest->contains"][0]
-    p = cfgq.reach_consistent(mo, [mo.entry], lambda blk: blk.id == dl[0].id, lambda e: "dest" if (e.get("k") == "Ref" and e.get("n") == "dest") else None, avoid_edges=edges) if edges else [0]
+    dl = [x for x in links if show(strip(x[2]["L"])) == P_DEST + "->contains"][0]
+    p = cfgq.reach_consistent(mo, [mo.entry], lambda blk: blk.id == dl[0].id, lambda e: "dest" if (e.get("k") == "Ref" and e.get("n") == P_DEST) else None, avoid_edges=edges) if edges else [0]
     run.ob("C08-d", "dest-live", p is None, "`dest->contains = item` is reached only through the not-destructed edge of the destination test" if p is None else "path %s links into the destination without the destructed test" % (p[:10],),
            mo.file, dl[2].get("l"), "move_object", what="move_object can move an object into a destructed object")
 
